@@ -45,7 +45,7 @@ def _outcome(fn):
         return type(e).__name__, None
 
 
-ENTRY = ("datetime", "create", "convert", "instance", "set", "replace", "replace_fold", "on_at",
+ENTRY = ("datetime", "create", "convert", "instance", "set", "replace", "replace_fold", "on_at", "set_foreign", "on_at_foreign",
          "parse", "tz_datetime", "naive_in_tz", "local")
 
 
@@ -71,6 +71,17 @@ def _call(pendulum, name, z, tzobj, f, fold, rse, recv):
     if name == "set":
         r = recv[fold]
         return r.fold, lambda: r.set(year=y, month=mo, day=d, hour=h, minute=mi, second=s, microsecond=us)
+    if name in ("set_foreign", "on_at_foreign"):
+        # a receiver whose tzinfo is not a pendulum timezone: a zoneinfo object (kept as the named zone) or a stdlib offset
+        from .. import foreign
+        fz = foreign.fixed(z.utcoffset(None).total_seconds()) if not isinstance(z, str) else foreign.zi(z)
+        r = pendulum.DateTime(2000, 6, 15, 12, 0, 0, 250000, tzinfo=fz, fold=fold)
+        if name == "set_foreign":
+            return r.fold, lambda: r.set(year=y, month=mo, day=d, hour=h, minute=mi, second=s, microsecond=us)
+        mid = r.on(y, mo, d)
+        if (mid.year, mid.month, mid.day) != (y, mo, d):
+            return None, None
+        return mid.fold, lambda: mid.at(h, mi, s, us)
     if name == "replace":
         r = recv[fold]
         return r.fold, lambda: r.replace(year=y, month=mo, day=d, hour=h, minute=mi, second=s,
@@ -159,6 +170,8 @@ def check_wall(acc, pendulum, z, f, entries=ENTRY, recv=None):
                                  {"fields": got_f, "offset": got_o}, {"fields": f2, "offset": o2})
                     continue
                 zn = getattr(r, "timezone_name", None)
+                if name.endswith("_foreign") and not isinstance(z, str):
+                    zn = None       # a stdlib fixed offset is kept as *a* pendulum zone of that offset (UTC for +00:00); C01 covers names
                 if zn is not None and zn != tzobj.name:
                     acc.mismatch(name, "zone-name", case, zn, tzobj.name)
                 # validity: the value survives a round trip through UTC
